@@ -21,6 +21,11 @@ CHECKS = {
         'with anchor uniqueness, path injectivity and all_links_resolve under an executable well-formedness check that is evaluated on every site extracted from a real skool2html run. '
         'Templates, assets, index/box pages and #LINK are covered by the e2e crawl (every href/src of every written file) only.',
    note=TB + 'hand models Model/PathAlg, HtmlSite tied by correspondence (53k cases/run); skool parsing taken from the real SkoolParser; posixpath modelled, not verified', ref='§8 C16'),
+ 'C14': dict(cat='proof', technique='Lean 4 theorems (invariants over the ctl dictionary, termination measures) + model/implementation correspondence + e2e sna2ctl->sna2skool->skool2bin',
+   text='24 theorems on a hand model of snactl.py (both generators, _find_terminal_instruction, text pass, steps 1-7) abstract in the decoder: output strictly increasing, starts at START, '
+        'terminator at END, tiles the range, no U left, for all decode streams/images; every while-loop terminates (explicit measures). Alignment after the text pass is refuted '
+        '(known finding F, negation proved). "Every executed address in a c block" and the sna2skool leg are correspondence + e2e only.',
+   note=TB + 'hand model Model/SnaCtl tied by correspondence (5.5k ops/run) with decode tables taken from the real opcodes.decode/Disassembler; three heuristic-limit known findings', ref='§8 C14'),
 }
 NA = {}
 def main():
